@@ -26,9 +26,90 @@ type onceStep struct {
 }
 
 type onceVec struct {
-	NP    int        `json:"np"`
-	Plan  [][]string `json:"plan"`
+	NP   int        `json:"np"`
+	Plan [][]string `json:"plan"`
+	// Zero: the keys for which the constructor returns the zero value of V.
+	Zero  []string   `json:"zero"`
 	Steps []onceStep `json:"steps"`
+}
+
+func (v *onceVec) isZero(k string) bool {
+	for _, z := range v.Zero {
+		if z == k {
+			return true
+		}
+	}
+	return false
+}
+
+// inst describes one instantiation OnceConstructor[K, V] the schedules are
+// replayed on: how model keys become K, how a fresh distinguishable non-zero V
+// is made, and how a V is read back (0 = the zero value of V).
+type inst[K comparable, V any] struct {
+	name string
+	key  func(string) K
+	str  func(K) string
+	mk   func(id int) V
+	id   func(V) int
+}
+
+// idErr is a distinguishable error value.
+type idErr struct{ n int }
+
+func (e *idErr) Error() string { return "constructed error #" + strconv.Itoa(e.n) }
+
+func mkPtr(id int) *int { x := new(int); *x = id; return x }
+func idPtr(x *int) int {
+	if x == nil {
+		return 0
+	}
+	return *x
+}
+func ident(s string) string { return s }
+func keyInt(s string) int   { return int(s[0]-'a') + 1 }
+func strInt(k int) string   { return string(rune('a' + k - 1)) }
+
+var (
+	instPtr = inst[string, *int]{name: "OnceConstructor[string, *int]", key: ident, str: ident, mk: mkPtr, id: idPtr}
+	instErr = inst[string, error]{name: "OnceConstructor[string, error]", key: ident, str: ident,
+		mk: func(id int) error { return &idErr{id} },
+		id: func(e error) int {
+			if e == nil {
+				return 0
+			}
+			if x, ok := e.(*idErr); ok {
+				return x.n
+			}
+			return -1
+		}}
+	instAny = inst[string, any]{name: "OnceConstructor[string, any]", key: ident, str: ident,
+		mk: func(id int) any { return mkPtr(id) },
+		id: func(a any) int {
+			if a == nil {
+				return 0
+			}
+			if x, ok := a.(*int); ok && x != nil {
+				return *x
+			}
+			return -1
+		}}
+	instIntKey = inst[int, *int]{name: "OnceConstructor[int, *int]", key: keyInt, str: strInt, mk: mkPtr, id: idPtr}
+)
+
+// instNames lists the instantiations; "cycle" picks one per schedule.
+var instNames = []string{"ptr", "error", "any", "intkey"}
+
+// replayOnce forces one schedule on a fresh OnceConstructor of the named instantiation.
+func replayOnce(v *onceVec, wait time.Duration, which string) outcome {
+	switch which {
+	case "error":
+		return replayOnceG(v, wait, instErr)
+	case "any":
+		return replayOnceG(v, wait, instAny)
+	case "intkey":
+		return replayOnceG(v, wait, instIntKey)
+	}
+	return replayOnceG(v, wait, instPtr)
 }
 
 func (v *onceVec) key() string {
@@ -39,6 +120,9 @@ func (v *onceVec) key() string {
 			b.WriteByte('|')
 		}
 		b.WriteString(strings.Join(p, ","))
+	}
+	if len(v.Zero) > 0 {
+		b.WriteString(" zero=" + strings.Join(v.Zero, ","))
 	}
 	b.WriteString(" schedule=")
 	for i, s := range v.Steps {
@@ -69,46 +153,52 @@ type outcome struct {
 }
 
 // onceRun is the state of one replay of one schedule.
-type onceRun struct {
+type onceRun[K comparable, V any] struct {
 	v   *onceVec
 	c   *ctl
-	oc  *syncutil.OnceConstructor[string, *int]
+	in  inst[K, V]
+	oc  *syncutil.OnceConstructor[K, V]
 	mu  sync.Mutex
 	seq int
 	// entered/exited: constructor calls per key; ptrs: the constructed objects per key in order.
 	entered map[string]int
 	exited  map[string]int
-	ptrs    map[string][]*int
+	ptrs    map[string][]V
 	// res[p]: the values p's Gets returned so far (written by p, read by the
 	// controller only while p is parked or finished).
-	res [][]*int
+	res [][]V
 	log []string
 }
 
 func pname(p int) string { return "p" + strconv.Itoa(p) }
 
-func newOnceRun(v *onceVec) *onceRun {
-	r := &onceRun{v: v, c: newCtl(), entered: map[string]int{}, exited: map[string]int{}, ptrs: map[string][]*int{}}
-	r.res = make([][]*int, v.NP+1)
-	r.oc = syncutil.NewOnceConstructor(func(k string) *int {
+func newOnceRun[K comparable, V any](v *onceVec, in inst[K, V]) *onceRun[K, V] {
+	r := &onceRun[K, V]{v: v, c: newCtl(), in: in, entered: map[string]int{}, exited: map[string]int{}, ptrs: map[string][]V{}}
+	r.res = make([][]V, v.NP+1)
+	r.oc = syncutil.NewOnceConstructor(func(kk K) V {
+		k := in.str(kk)
 		r.mu.Lock()
 		r.entered[k]++
 		r.mu.Unlock()
 		r.c.s.Gate("construct")
 		r.mu.Lock()
+		defer r.mu.Unlock()
+		// The model draws a fresh value id per constructor call; for the keys
+		// in Zero the constructor returns the zero value of V instead.
 		r.seq++
-		x := new(int)
-		*x = r.seq
+		var x V
+		if !v.isZero(k) {
+			x = in.mk(r.seq)
+		}
 		r.ptrs[k] = append(r.ptrs[k], x)
 		r.exited[k]++
-		r.mu.Unlock()
 		return x
 	})
 	return r
 }
 
 // consSnapshot returns the constructor calls that have completed, per key.
-func (r *onceRun) consSnapshot() map[string]int {
+func (r *onceRun[K, V]) consSnapshot() map[string]int {
 	r.mu.Lock()
 	defer r.mu.Unlock()
 	m := make(map[string]int, len(r.exited))
@@ -119,7 +209,7 @@ func (r *onceRun) consSnapshot() map[string]int {
 }
 
 // inProgress reports the keys whose constructor has been entered and not left.
-func (r *onceRun) inProgress() map[string]bool {
+func (r *onceRun[K, V]) inProgress() map[string]bool {
 	r.mu.Lock()
 	defer r.mu.Unlock()
 	m := map[string]bool{}
@@ -132,7 +222,7 @@ func (r *onceRun) inProgress() map[string]bool {
 }
 
 // expectArrival maps the model's stop point of p to what the scheduler shows.
-func (r *onceRun) expectArrival(p int, to string, callsDone int) (sched.Status, string) {
+func (r *onceRun[K, V]) expectArrival(p int, to string, callsDone int) (sched.Status, string) {
 	switch to {
 	case "once.miss", "once.stored", "construct":
 		return sched.AtGate, to
@@ -145,9 +235,9 @@ func (r *onceRun) expectArrival(p int, to string, callsDone int) (sched.Status, 
 	return sched.Blocked, ""
 }
 
-// replayOnce forces one schedule on a fresh OnceConstructor.
-func replayOnce(v *onceVec, wait time.Duration) (o outcome) {
-	r := newOnceRun(v)
+// replayOnceG forces one schedule on a fresh OnceConstructor[K, V].
+func replayOnceG[K comparable, V any](v *onceVec, wait time.Duration, in inst[K, V]) (o outcome) {
+	r := newOnceRun(v, in)
 	s := r.c.s
 	syncutil.VerifGate = func(point string) { s.Gate(point) }
 	defer func() { syncutil.VerifGate = nil }()
@@ -161,7 +251,7 @@ func replayOnce(v *onceVec, wait time.Duration) (o outcome) {
 				if i > 0 {
 					s.Gate("next")
 				}
-				x := r.oc.Get(k)
+				x := r.oc.Get(in.key(k))
 				r.res[p] = append(r.res[p], x)
 			}
 		})
@@ -238,7 +328,7 @@ steps:
 		for k, n := range cons {
 			if n > 1 {
 				o.class = "violation"
-				o.what = fmt.Sprintf("the constructor was invoked %d times for key %q", n, k)
+				o.what = fmt.Sprintf("the constructor was invoked %d times for key %q (%s%s)", n, k, in.name, r.zeroNote(k))
 				break steps
 			}
 		}
@@ -262,10 +352,9 @@ steps:
 				diverged = fmt.Sprintf("step %d: p%d returned %d results, model %d", i+1, st.P, len(rs), callsDone[st.P])
 				break steps
 			}
-			x := rs[len(rs)-1]
-			if x == nil || *x != st.Val {
+			if x := rs[len(rs)-1]; in.id(x) != st.Val {
 				// decided below by the API-level check on identity
-				diverged = fmt.Sprintf("step %d: p%d returned %v, model value #%d", i+1, st.P, deref(x), st.Val)
+				diverged = fmt.Sprintf("step %d: p%d returned %v, model value #%d", i+1, st.P, deref(in.id(x)), st.Val)
 				break steps
 			}
 		}
@@ -311,6 +400,13 @@ steps:
 	return o
 }
 
+func (r *onceRun[K, V]) zeroNote(k string) string {
+	if r.v.isZero(k) {
+		return "; the constructor returns the zero value for this key"
+	}
+	return ""
+}
+
 func sliceFirst(a []string) string {
 	if len(a) == 0 {
 		return ""
@@ -318,16 +414,19 @@ func sliceFirst(a []string) string {
 	return a[0]
 }
 
-func deref(x *int) any {
-	if x == nil {
-		return "nil (zero value)"
+func deref(id int) any {
+	switch {
+	case id == 0:
+		return "the zero value (nil)"
+	case id < 0:
+		return "a foreign value"
 	}
-	return fmt.Sprintf("object #%d", *x)
+	return fmt.Sprintf("object #%d", id)
 }
 
 // apiCheck evaluates the observables the property names on a finished run:
 // one constructor call per requested key, and every Get returned that object.
-func (r *onceRun) apiCheck() (class, what string) {
+func (r *onceRun[K, V]) apiCheck() (class, what string) {
 	r.mu.Lock()
 	defer r.mu.Unlock()
 	for p := 1; p <= r.v.NP; p++ {
@@ -340,24 +439,32 @@ func (r *onceRun) apiCheck() (class, what string) {
 		}
 		for i, k := range plan {
 			if n := r.exited[k]; n != 1 {
-				return "violation", fmt.Sprintf("the constructor was invoked %d times for key %q", n, k)
+				return "violation", fmt.Sprintf("the constructor was invoked %d times for key %q (%s%s)", n, k, r.in.name, r.zeroNote(k))
 			}
-			if x := r.res[p][i]; x == nil || x != r.ptrs[k][0] {
-				return "violation", fmt.Sprintf("Get(%q) #%d of p%d returned %v, not the single constructed object #%d",
-					k, i+1, p, deref(x), *r.ptrs[k][0])
+			// identity: the very object the single constructor call returned (for
+			// a zero-valued construction: the zero value)
+			if x, c := r.res[p][i], r.ptrs[k][0]; any(x) != any(c) || r.in.id(x) != r.in.id(c) {
+				return "violation", fmt.Sprintf("Get(%q) #%d of p%d returned %v, not the single constructed result %v (%s)",
+					k, i+1, p, deref(r.in.id(x)), deref(r.in.id(c)), r.in.name)
 			}
 		}
 	}
 	return "", ""
 }
 
-// replayOnceCmd: vh c17 replay-once <vectors> <result> <every>
-// replays every schedule (or every `every`-th, chosen by the seed).
+// replayOnceCmd: vh c17 replay-once <vectors> <result> <every> [inst]
+// replays every schedule (or every `every`-th, chosen by the seed) on the
+// instantiation inst: ptr | error | any | intkey | cycle (one per schedule,
+// default) | all (each schedule on every instantiation).
 func replayOnceCmd(args []string) error {
-	if len(args) != 3 {
-		return fmt.Errorf("usage: replay-once <vectors> <result> <sample-every>")
+	if len(args) != 3 && len(args) != 4 {
+		return fmt.Errorf("usage: replay-once <vectors> <result> <sample-every> [ptr|error|any|intkey|cycle|all]")
 	}
 	every, _ := strconv.Atoi(args[2])
+	mode := "cycle"
+	if len(args) == 4 {
+		mode = args[3]
+	}
 	res, err := vh.NewResult(args[1])
 	if err != nil {
 		return err
@@ -378,51 +485,69 @@ func replayOnceCmd(args []string) error {
 		if err := json.Unmarshal(raw, &v); err != nil {
 			return err
 		}
-		replayed++
 		dd.Add(raw)
-		o := replayOnce(&v, hangWait)
-		steps += o.steps
-		unconf += o.unconf
-		crossKey += o.crossKey
-		if replayed%1499 == 1 {
-			res.Sample(map[string]any{"plan": v.Plan, "schedule": schedString(&v), "outcome": o.class})
+		var insts []string
+		switch mode {
+		case "all":
+			insts = instNames
+		case "cycle":
+			insts = []string{instNames[(line+int(seed))%len(instNames)]}
+		default:
+			insts = []string{mode}
 		}
-		switch o.class {
-		case "ok":
-		case "diverged":
-			diverged++
-			if diverged <= 3 {
-				res.Sample(map[string]any{"diverged": o.what, "key": v.key()})
+		for _, which := range insts {
+			if hangs >= 1 || internal != nil {
+				break
 			}
-		case "violation":
-			viol++
-			res.Mismatch(v.key(), o.what, o.detail)
-		case "hang":
-			// A real deadlock under a legal schedule reproduces; a slow machine does not.
-			repro := 1
-			for i := 0; i < 2; i++ {
-				o2 := replayOnce(&v, hangWait)
-				if o2.class != "hang" {
-					break
+			replayed++
+			key := v.key()
+			if which != "ptr" {
+				key += " [" + which + "]"
+			}
+			o := replayOnce(&v, hangWait, which)
+			steps += o.steps
+			unconf += o.unconf
+			crossKey += o.crossKey
+			if replayed%1499 == 1 {
+				res.Sample(map[string]any{"plan": v.Plan, "zero": v.Zero, "instantiation": which, "schedule": schedString(&v), "outcome": o.class})
+			}
+			switch o.class {
+			case "ok":
+			case "diverged":
+				diverged++
+				if diverged <= 3 {
+					res.Sample(map[string]any{"diverged": o.what, "key": key})
 				}
-				repro++
-			}
-			crossKeyBlock := strings.Contains(o.what, "a slow construction of one key blocks Get of another")
-			if repro < 3 && !crossKeyBlock {
-				internal = fmt.Errorf("schedule %s: %s -- reproduced in only %d of 3 runs", v.key(), o.what, repro)
-				return nil
-			}
-			hangs++
-			if repro == 3 {
-				res.Mismatch(v.key(), o.what+" (reproduced in 3 of 3 runs, each waiting 10 s)", o.detail)
-			} else {
-				// The observation itself is conclusive: the goroutine sat in a wait
-				// state inside syncutil for the whole grace period while only another
-				// key's constructor was parked.  Blocking that depends on per-instance
-				// state (e.g. a random hash seed choosing a shared lock) need not
-				// reproduce on a fresh instance.
-				res.Mismatch("OnceConstructor: Get of one key blocked by the parked construction of another key (instance-dependent)",
-					o.what+fmt.Sprintf(" (observed for 10 s in a wait state inside syncutil; reproduced in %d of 3 runs on fresh instances) schedule: %s", repro, v.key()), o.detail)
+			case "violation":
+				viol++
+				res.Mismatch(key, o.what, o.detail)
+			case "hang":
+				// A real deadlock under a legal schedule reproduces; a slow machine does not.
+				repro := 1
+				for i := 0; i < 2; i++ {
+					o2 := replayOnce(&v, hangWait, which)
+					if o2.class != "hang" {
+						break
+					}
+					repro++
+				}
+				crossKeyBlock := strings.Contains(o.what, "a slow construction of one key blocks Get of another")
+				if repro < 3 && !crossKeyBlock {
+					internal = fmt.Errorf("schedule %s: %s -- reproduced in only %d of 3 runs", key, o.what, repro)
+					return nil
+				}
+				hangs++
+				if repro == 3 {
+					res.Mismatch(key, o.what+" (reproduced in 3 of 3 runs, each waiting 10 s)", o.detail)
+				} else {
+					// The observation itself is conclusive: the goroutine sat in a wait
+					// state inside syncutil for the whole grace period while only another
+					// key's constructor was parked.  Blocking that depends on per-instance
+					// state (e.g. a random hash seed choosing a shared lock) need not
+					// reproduce on a fresh instance.
+					res.Mismatch("OnceConstructor: Get of one key blocked by the parked construction of another key (instance-dependent)",
+						o.what+fmt.Sprintf(" (observed for 10 s in a wait state inside syncutil; reproduced in %d of 3 runs on fresh instances) schedule: %s", repro, key), o.detail)
+				}
 			}
 		}
 		return nil
